@@ -84,6 +84,7 @@ type Interp struct {
 	tok         *tokenMode
 	Cross       *CrossCheck
 	onceDone    map[*StructV]bool
+	sync        *syncState
 	dom         map[string]*smallDom // finite domains of small-range variables
 	entangled   map[string]bool      // variables that occur in multi-variable conjuncts
 	varsMemo    map[string][]string
@@ -760,7 +761,7 @@ func (in *Interp) store(r Ref, v Value) {
 	if in.monitorOn && in.underTest > 0 {
 		o := r.Origin()
 		// while Parse runs, the syntax tree under construction is private to the call
-		if o == OrgDoc || (o == OrgAST && in.parseDepth == 0) || o == OrgGlobal {
+		if o == OrgDoc || (o == OrgAST && in.parseDepth == 0) || o == OrgGlobal || o == OrgPool {
 			in.Events = append(in.Events, Event{Kind: "sharedwrite", Msg: "store to " + o.String() + " object", Where: in.where(), Stack: in.stackNames()})
 		}
 	}
@@ -891,6 +892,13 @@ func (in *Interp) CallFunction(fn *ssa.Function, args []Value, bindings []Value)
 	if stub, ok := in.W.Stubs[fn.String()]; ok {
 		in.StubsUsed[fn.String()] = true
 		return stub(in, fn, args)
+	}
+	if o := fn.Origin(); o != nil && o != fn {
+		// instances of generic functions outside the repository (atomic.Pointer[T]) have no package of their own
+		if stub, ok := in.W.Stubs[o.String()]; ok {
+			in.StubsUsed[o.String()] = true
+			return stub(in, fn, args)
+		}
 	}
 	if fn.Blocks == nil {
 		// generic origin name lookup (instantiations)
